@@ -14,6 +14,9 @@ from . import core
 from .core import SymReal, SymInt, SymBool, lift, PathAbort
 
 
+_FINAL_COUNT = [0]
+
+
 class Candidate(object):
     def __init__(self, label, detail, values, choices):
         self.label = label
@@ -170,6 +173,42 @@ class HSym(HBase):
             pass
         return None
 
+    def _second_opinion(self, solver):
+        """every k-th discharged (unsat) final query is exported as SMT-LIB2 and re-decided by the cvc5 binary"""
+        c = self.ctx
+        k = c.options.get('second_solver_every')
+        if not k:
+            return
+        _FINAL_COUNT[0] += 1
+        if _FINAL_COUNT[0] % k:
+            return
+        import os
+        import subprocess
+        import tempfile
+        text = "(set-logic ALL)\n" + solver.to_smt2()
+        fd, fn = tempfile.mkstemp(suffix='.smt2', prefix='emd-verif-q-')
+        try:
+            with os.fdopen(fd, 'w') as f:
+                f.write(text)
+            try:
+                out = subprocess.run(['cvc5', '--tlimit=8000', fn], capture_output=True, text=True, timeout=15).stdout
+            except (subprocess.TimeoutExpired, OSError):
+                out = 'timeout'
+        finally:
+            os.unlink(fn)
+        first = (out.strip().splitlines() or ['?'])[0].strip()
+        if '(error' in out:
+            verdict = 'error'
+        elif first == 'unsat':
+            verdict = 'agree'
+        elif first == 'sat':
+            verdict = 'disagree'
+        else:
+            verdict = 'undecided'
+        self.notes['second-solver:' + verdict] = self.notes.get('second-solver:' + verdict, 0) + 1
+        if verdict == 'disagree':
+            c.inconclusive.append('second-solver-disagrees')
+
     def nice_model(self):
         """a model of the path condition, dyadic when possible"""
         c = self.ctx
@@ -189,6 +228,7 @@ class HSym(HBase):
                 m2 = self._dyadic(c.solver)
                 return 'sat', (m2 if m2 is not None else m)
             if r == z3.unsat:
+                self._second_opinion(c.solver)
                 return 'unsat', None
         finally:
             c.solver.pop()
